@@ -112,7 +112,7 @@ func tryReplay(prop string, rep *OblReport, o *Obligation) *replayResult {
 		return res
 	}
 	model := map[string]string{}
-	if o != nil && o.Result != nil && o.Result.Status == "sat" {
+	if o != nil && o.Result != nil && (o.Result.Status == "sat" || o.Result.Status == "candidate") {
 		model = parseModel(o.Result.Model)
 	}
 	// header of the template: "//replay-pkg: module/x/mhub2/types" and "//replay-module: module"
